@@ -455,6 +455,65 @@ def foreign_naming_pairs(res, ctx, rng):
             res.count('foreign_naming_pair_histories')
 
 
+def named_while_open(res, ctx, rng):
+    """The table (or the parser's public decoder table) is edited WHILE a window is open: an id the table did not name gets
+    the name of a decodable call, a name gets its decoder registered, or the other way round.  Pairing never depends on
+    whether a code is decodable (undecoded and unknown codes pair like any other), so the window is collected either
+    way; whether its END yields a trace is what the tables say WHEN THE END ARRIVES - the one moment a decoder is looked
+    up - and the trace then carries the whole window."""
+    inv = H.inventory()
+    bundled = ev.bundled_codes()
+    free_ids = [0x2a040000, 0x99990004, 0xfe000000, 0x2b000010]
+    for it in range(ctx.pick(60, 1200)):
+        call = rng.choice(inv['bsd'])
+        direction = ('named while open', 'decoder registered while open', 'name removed while open')[it % 3]
+        table = dict(bundled)
+        parser = ev.new_parser(codes=table)
+        x = rng.choice(free_ids) if direction == 'named while open' else ev.eid(call)
+        saved_handler = parser.handlers.get(call)
+        if direction == 'decoder registered while open':
+            parser.handlers = {k: v for k, v in parser.handlers.items() if k != call}
+        tid = rng.choice((7, 0, 1 << 40))
+        words = domain.gen_words(rng, call, 'S')
+        end = domain.gen_words(rng, call, 'E')
+        end[0] = 0
+        inner = [ev.mk(1007 + 7 * i, rng.choice(free_ids[1:] if x == free_ids[0] else free_ids[:1]), 0, [i, 0, 0, 0], tid)
+                 for i in range(rng.randrange(0, 4))]
+        other = [ev.mk(1100 + i, 0x2b000020, rng.choice((0, 1, 2)), [0, 0, 0, 0], tid + 1) for i in range(rng.randrange(0, 3))]
+        history = [ev.mk(1000, x, 1, words, tid)] + inner + other
+        try:
+            early = [parser.feed(e) for e in history]
+            if direction == 'named while open':
+                table[x] = call
+            elif direction == 'decoder registered while open':
+                parser.handlers[call] = saved_handler
+            else:
+                del table[x]
+            last = ev.mk(2000, x, 2, end, tid)
+            t = parser.feed(last)
+        except Exception as exc:
+            res.violation(f'c04-raises-{core.exc_name(exc)}', f'{call} ({direction}): {exc!r} at {core.short_tb(exc)}', {'call': call})
+            return
+        res.count('windows_with_a_table_edit_inside')
+        res.case(('named-while-open', call, direction, it))
+        if any(e_ is not None for e_ in early):
+            res.violation('c04-trace-on-start', f'{call} ({direction}): a record before the END produced a trace', {'call': call})
+            return
+        if direction == 'name removed while open':
+            if t is not None:
+                res.violation('c04-window', f'{call}: its name was removed from the table while its window was open, the END still '
+                              f'produced {str(t)!r}', {'call': call, 'direction': direction})
+                return
+            continue
+        want = [history[0]] + inner + [last]
+        if t is None or [id(e_) for e_ in t.ktraces] != [id(e_) for e_ in want]:
+            res.violation('c04-no-trace-on-end' if t is None else 'c04-window',
+                          f'{call} ({direction}): the END of the window produced {"no trace" if t is None else "a window of %d records" % len(t.ktraces)}, '
+                          f'the window holds {len(want)} records of its thread and the tables name and decode the call when the END arrives',
+                          {'call': call, 'direction': direction})
+            return
+
+
 def reassigned_tables(res, ctx, rng):
     """A long-lived parser whose code table is RE-ASSIGNED (parser.trace_codes = another mapping) or edited in place while it
     lives: a kernel trace-string / data name and an ordinary call trade ids, and the following records use the new
@@ -585,6 +644,7 @@ def run(ctx):
     huge_windows(res, ctx, rng)
     foreign_naming_pairs(res, ctx, rng)
     reassigned_tables(res, ctx, rng)
+    named_while_open(res, ctx, rng)
     front_end_sequences(res, ctx, rng)
     res.count('invariant_evaluations', InvariantLog.evaluations)
     res.notes['invariant_backend'] = 'icontract.invariant on TracesParser' if monitors.HAVE_ICONTRACT else 'absent'
@@ -602,7 +662,8 @@ def run(ctx):
     for cls in ('class_unmatched_end', 'class_reopened_start', 'class_nested', 'class_crossing',
                 'class_same_code_two_threads', 'class_both_domains_open', 'class_qualifier_all', 'windows_checked',
                 'singles_checked', 'long_window_histories', 'huge_windows', 'foreign_naming_pair_histories', 'histories_after_a_table_change',
-                'histories_with_a_checkpoint_transfer_by_pickle', 'histories_with_a_checkpoint_transfer_by_deepcopy'):
+                'histories_with_a_checkpoint_transfer_by_pickle', 'histories_with_a_checkpoint_transfer_by_deepcopy',
+                'windows_with_a_table_edit_inside'):
         res.require(cls)
     if monitors.HAVE_ICONTRACT:
         res.require('invariant_evaluations')
